@@ -87,6 +87,13 @@ func HandleInvite(ctx context.Context, input HandleInviteInput) (PDU, error) {
 		return nil, spec.BadJSON("The invite event must have membership \"invite\"")
 	}
 
+	// Check that the invite is for the user we have been asked about: it is that user's server
+	// we sign for, and the user invited by the event whose membership we check below.
+	invitedSenderID := spec.SenderID(*input.InviteEvent.StateKey())
+	if invitedSenderID != input.InvitedSenderID && string(invitedSenderID) != input.InvitedUser.String() {
+		return nil, spec.BadJSON("The invite event must have the invited user as state key")
+	}
+
 	// Check that the event is signed by the server sending the request.
 	redacted, err := verImpl.RedactEventJSON(input.InviteEvent.JSON())
 	if err != nil {
@@ -116,7 +123,7 @@ func HandleInvite(ctx context.Context, input HandleInviteInput) (PDU, error) {
 		string(input.InvitedUser.Domain()), input.KeyID, input.PrivateKey,
 	)
 
-	return handleInviteCommonChecks(ctx, input, signedEvent, *sender, input.InvitedSenderID)
+	return handleInviteCommonChecks(ctx, input, signedEvent, *sender, invitedSenderID)
 }
 
 func HandleInviteV3(ctx context.Context, input HandleInviteV3Input) (PDU, error) {
